@@ -28,3 +28,4 @@ def run(ctx, R):
     jitcross.rule_lwpos_a64(ctx, R)
     rv64.rule_cbr(ctx, R, F)
     rv64.rule_branch_forms(ctx, R)
+    jit.rule_lw_sib(ctx, R, 'rvv', F)
